@@ -113,7 +113,7 @@ def audit_proofs(pid):
         if m:
             problems.append(f"forbidden construct {m.group(0)!r} in {os.path.relpath(p, LEAN)}")
     src = strip_lean_comments(open(path).read())
-    names = re.findall(r"^theorem\s+([A-Za-z0-9_.']+)", src, re.M)
+    names = re.findall(r"^theorem\s+([A-Za-z0-9_.'?!]+)", src, re.M)
     ns = re.search(r"^namespace\s+(\S+)", src, re.M)
     prefix = (ns.group(1) + ".") if ns else ""
     audit = os.path.join(BUILD, f"audit_{pid}_{os.getpid()}.lean")
@@ -224,8 +224,16 @@ def load_known():
         return []
     return json.load(open(p))["findings"]
 
+import itertools, threading
+_scratch_counter = itertools.count()
+_scratch_lock = threading.Lock()
+
 def scratch(prefix):
     base = "/var/tmp" if os.path.isdir("/var/tmp") else "/tmp"
-    d = os.path.join(base, f"verif-{prefix}-{os.getpid()}-{int(time.time()*1000)%100000}")
+    with _scratch_lock:
+        n = next(_scratch_counter)
+    d = os.path.join(base, f"verif-{prefix}-{os.getpid()}-{n}")
+    if os.path.exists(d):
+        shutil.rmtree(d, ignore_errors=True)
     os.makedirs(d)
     return d
